@@ -151,6 +151,32 @@ fn probe_fundee_limit() -> Option<String> {
 	out
 }
 
+/// C05: "every secret received from the peer is checked against the commitment point the peer announced before it
+/// is accepted and stored". Corrupt the secret (or the next point) of an in-flight revoke_and_ack and deliver it:
+/// the receiver must refuse it (protocol error, channel closed), never process it.
+fn probe_bad_raa(flip_secret: bool, after_updates: usize) -> Option<String> {
+	let mut net = Net::new(2, vec![None, None]);
+	let c = net.open(0, 1, 1_000_000, 400_000_000);
+	for _ in 0..after_updates { let p = net.send(&[0, 1], &[c], 1_000_000, 80).ok()?; net.settle(8); net.claim(p); net.settle(8); }
+	let _p = net.send(&[0, 1], &[c], 2_000_000, 80).ok()?;
+	// deliver add + cs to node 1; its revoke_and_ack is now queued 1 -> 0
+	for _ in 0..2 { net.deliver(0, 1)?; }
+	let q = net.q.get_mut(&(1, 0))?;
+	let pos = q.iter().position(|w| matches!(w, Wire::Raa(_)))?;
+	if let Wire::Raa(m) = &mut q[pos] {
+		if flip_secret { m.per_commitment_secret[7] ^= 0x10; } else {
+			// a valid secret for the WRONG commitment: replay the previous revoke_and_ack's secret is not available here; swap two bytes instead
+			m.per_commitment_secret.swap(0, 31);
+		}
+	}
+	let before = net.trace.len();
+	while let Some(k) = net.deliver(1, 0) { if k == "raa" { break; } }
+	let rejected = net.trace[before..].iter().any(|o| matches!(o, Obs::ProtoError { .. })) || !net.closed.is_empty();
+	let gone = net.nodes[0].node.list_channels().is_empty() || !net.nodes[0].node.list_channels()[0].is_usable;
+	std::mem::forget(net);
+	if rejected && gone { None } else { Some(format!("a revoke_and_ack with a corrupted per_commitment_secret (flip_secret={}, after {} updates) was not refused (protocol error seen: {}, channel unusable: {})", flip_secret, after_updates, rejected, gone)) }
+}
+
 fn nm(i: usize) -> &'static str { if i == 0 { "a" } else { "b" } }
 
 fn main() {
@@ -160,6 +186,12 @@ fn main() {
 	let mut rng = Rng::new(args.seed);
 	let n_scen = if args.thorough { 400 } else { 24 } * args.scale as usize;
 	let mut reached_in: BTreeMap<String, u64> = BTreeMap::new();
+	if args.model == "chan" && std::env::var("VERIF_PROPERTY").map(|p| p == "C05").unwrap_or(true) {
+		for (flip, n) in [(true, 0usize), (false, 1), (true, 3)] {
+			match guarded(std::panic::AssertUnwindSafe(|| probe_bad_raa(flip, n))) { Ok(Some(m)) => rec.oracle_fail(m), Ok(None) => { *reached_in.entry("bad_raa_refused".into()).or_insert(0) += 1; }, Err(p) => rec.oracle_fail(format!("bad-raa probe panicked: {}", p.chars().take(200).collect::<String>())) }
+		}
+		rec.notes.insert("bad_raa_probes_refused".into(), format!("{}", reached_in.get("bad_raa_refused").copied().unwrap_or(0)));
+	}
 	// the deterministic replay of KF-C01-1 belongs to property C01 only
 	if args.model == "chan" && std::env::var("VERIF_PROPERTY").map(|p| p == "C01").unwrap_or(true) {
 		match guarded(std::panic::AssertUnwindSafe(probe_fundee_limit)) { Ok(Some(m)) => rec.oracle_fail(m), Ok(None) => { rec.notes.insert("kf_c01_1".into(), "probe did not reproduce KF-C01-1 on this tree".into()); }, Err(p) => rec.oracle_fail(format!("fundee-limit probe panicked: {}", p.chars().take(200).collect::<String>())) }
